@@ -233,7 +233,14 @@ func genC12Payload(r *Rng, tier string) *Plan {
 	p.Knobs["proto"] = int64(Pick(r, []int{2, 2, 3}))
 	n := r.Range(1, 5)
 	for i := 0; i < n; i++ {
-		p.Ops = append(p.Ops, Op{Kind: Pick(r, []string{"string", "list", "hash", "echo", "publish"}), S: Pick(r, c12Payloads), C: r.Intn(2)})
+		v := Pick(r, c12Payloads)
+		if r.Chance(0.5) {
+			// reply lengths around the multiples of the 1024-byte reply chunk and of the 8192-byte read buffer:
+			// every payload length within 24 bytes below such a boundary (the reply framing adds 7-15 bytes)
+			k := Pick(r, []int{1, 1, 2, 3, 8, 16})
+			v = strings.Repeat(string(rune('a'+r.Intn(26))), 1024*k-24+r.Intn(30))
+		}
+		p.Ops = append(p.Ops, Op{Kind: Pick(r, []string{"string", "list", "hash", "echo", "publish"}), S: v, C: r.Intn(2)})
 	}
 	return p
 }
